@@ -24,6 +24,45 @@ def z1(run: Run, prog: Program):
             if nme in ("self.update_admittance", "self.update_R"):
                 order.append(nme)
     ok = order == ["self.update_admittance", "self.update_R"]
+    tr = None
+    if not ok:
+        # spelled differently (a loop over the bound methods, a helper): the
+        # order of the calls and of the store in the effect tree of the method
+        def linear(t, out):
+            k = t[0]
+            if k == "ev":
+                out.append(("ev", t[1]))
+            elif k == "seq":
+                for c in t[1]:
+                    linear(c, out)
+            elif k == "call":
+                out.append(("call", t[1]))
+                linear(t[2], out)
+            elif k in ("alt", "loop"):
+                out.append(("branch", None))
+                for c in (t[1] if k == "alt" else [t[1]]):
+                    linear(c, out)
+                out.append(("join", None))
+        try:
+            tr = []
+            linear(prog.tree(m, rn, {}), tr)
+        except AnalysisError:
+            tr = None
+        if tr is not None:
+            depth = 0
+            seq_ = []
+            for kind, x in tr:
+                if kind == "branch":
+                    depth += 1
+                elif kind == "join":
+                    depth -= 1
+                elif kind == "call" and x.func.name in (
+                        "update_admittance", "update_R") and depth == 0 and \
+                        x.func.qualname.startswith("ResNetwork."):
+                    if not seq_ or seq_[-1] != "self." + x.func.name:
+                        seq_.append("self." + x.func.name)
+            if seq_ == ["self.update_admittance", "self.update_R"]:
+                ok, order = True, seq_
     run.oblige("Z1", "update-order", ok, sample={"where": m.where, "order": order})
     if not ok:
         run.add("Z1", "ResNetwork.update_resistances/order", m.where,
@@ -66,6 +105,14 @@ def z1(run: Run, prog: Program):
         if "self.update_admittance()" in s and first_upd is None:
             first_upd = i
     ok = store is not None and first_upd is not None and store < first_upd
+    if not ok and tr is not None:
+        # same through the effect tree: the first write of `resistances` comes
+        # before the first of the two update calls
+        pos_store = next((i for i, (k_, x) in enumerate(tr) if k_ == "ev" and
+                          x.kind in ("write", "assign") and x.cell == "resistances"), None)
+        pos_call = next((i for i, (k_, x) in enumerate(tr) if k_ == "call" and
+                         x.func.name in ("update_admittance", "update_R")), None)
+        ok = pos_store is not None and pos_call is not None and pos_store < pos_call
     run.oblige("Z1", "store-before-update", ok)
     if not ok:
         run.add("Z1", "ResNetwork.update_resistances/store", m.where,
